@@ -59,6 +59,12 @@ OPSTEP = [
     ("unzip0", "vec![(1, 2), (3, 4)].into_iter()", '-> |it: std::vec::IntoIter<(i32, i32)>| { ev0("0.0.f"); it }', "~<->", '-> |p: (Vec<i32>, Vec<i32>)| { ev("0.1.f", &p); p }'),
     ("inspect", "Some(1)", '-> |o: Option<i32>| { ev("0.0.f", &o); o }', '~?? |o: &Option<i32>| { ev("0.1.f", o); }', ""),
     ("wrap_map", "Some(Some(1))", '-> |o: Option<Option<i32>>| { ev("0.0.f", &o); o }', '~|> >>> |> |v: i32| { ev("0.1.f", &v); v + 1 }', ""),
+    # the deferred operator directly FOLLOWS an operand-less operator / `<<<` (its `~` belongs to it, not to what stands before)
+    ("after_flatten", "Some(Some(1))", '-> |o: Option<Option<i32>>| { ev("0.0.f", &o); o } ^^>', '~-> |o: Option<i32>| { ev("0.1.f", &o); o }', ""),
+    ("after_enumerate", "vec![1, 2].into_iter()", '-> |it: std::vec::IntoIter<i32>| { ev0("0.0.f"); it } |n>', '~-> |it: std::iter::Enumerate<std::vec::IntoIter<i32>>| { ev0("0.1.f"); it.count() }', ""),
+    ("after_collect0", "vec![1, 2].into_iter()", '-> |it: std::vec::IntoIter<i32>| { ev0("0.0.f"); it } =>[]', '~-> |v: Vec<i32>| { ev("0.1.f", &v); v }', ""),
+    ("after_unzip0", "vec![(1, 2), (3, 4)].into_iter()", '-> |it: std::vec::IntoIter<(i32, i32)>| { ev0("0.0.f"); it } <->', '~-> |p: (Vec<i32>, Vec<i32>)| { ev("0.1.f", &p); p }', ""),
+    ("after_unwrap", "Some(Some(1))", '-> |o: Option<Option<i32>>| { ev("0.0.f", &o); o } |> >>> |> |v: i32| v + 1 <<<', '~-> |o: Option<Option<i32>>| { ev("0.1.f", &o); o }', ""),
     ("wrap_close", "Some(Some(1))", '-> |o: Option<Option<i32>>| { ev("0.0.f", &o); o }', '~|> >>> |> |v: i32| { ev("0.1.f", &v); v + 1 } <<<', '-> |o: Option<Option<i32>>| { ev("0.1.g", &o); o }'),
 ]
 
@@ -73,7 +79,7 @@ def opstep_set(tier):
     for label, init, t0, op, t1 in OPSTEP:
         for mac in ("join_spawn", "spawn"):
             for n in (2, 3):
-                if n == 3 and (mac == "spawn" or tier == "quick" and label not in ("flatten", "enumerate", "collect0", "unzip0", "wrap_close", "or")):
+                if n == 3 and (mac == "spawn" or tier == "quick" and label not in ("flatten", "enumerate", "collect0", "unzip0", "wrap_close", "or", "after_flatten", "after_unwrap")):
                     continue
                 body = "lg(\"0.0.i\", %s) %s %s %s, %s" % (init, t0, op, t1, b1 if n == 2 else b1 + ", " + b2)
                 fmt = 'ev0("end.99.z"); format!("{:?}", x)'
